@@ -408,7 +408,15 @@ theorem indep_cutoff {t : RefTable} {query : List Nat} {parents : List Parent} {
     · exact indep ht hth hs1 hs2
     · rw [hs1] at hs2; cases hs2; exact List.Perm.refl _
 
+/-- (non-vacuity of `indep`: both hypotheses hold for the sample, on the two
+table paths; here the two ordered lists even coincide) -/
 example : selectParent sampleThin [2, 0] false 1 (fun _ u => lastArgmax u) = .ok [2, 0] := by
+  decide
+
+example : selectParent sampleThin [2, 0] true 1 (fun _ u => lastArgmax u) = .ok [2, 0] := by
+  have h : localOrder [2, 0] true = [0, 2] := by simp [localOrder, List.mergeSort]
+  unfold selectParent
+  rw [h]
   decide
 
 end CTM.C12
